@@ -1,4 +1,5 @@
 (* CApiProofs.v — proofs about the model of the C interface (CApi.v). *)
+From MLA Require Import Limit.
 From Coq Require Import ZifyBool ZifyNat ZifyN Lia.
 From MLA Require Import Base Stream Blocks Writer CApi.
 From MLAGen Require Src.
@@ -158,6 +159,7 @@ Proof. exists [Accept 1; FailCb EINTR; Accept 2], [10; 11; 12]. vm_compute. auto
 
 (* ------------------------------------------------------------------ PART B *)
 Section Proofs.
+  Context {LIM : Limit}.
   Variable FNMAX : N.
   Variables T_START T_CONTENT T_EOA T_EOF : N.
   Variable H : bytes -> bytes.
